@@ -127,6 +127,8 @@ class Repo:
                 ci.base_names.append(b.id)
             elif isinstance(b, ast.Attribute):
                 ci.base_names.append(b.attr)
+            elif isinstance(b, ast.Subscript) and isinstance(b.value, ast.Name):
+                ci.base_names.append(b.value.id)       # dict[str, X] -> dict
         if 'Enum' in ci.base_names:
             ci.is_enum = True
         self.classes[node.name] = ci
